@@ -18,7 +18,8 @@ claimed = {
         "(R1.2), frames fit 260/256 bytes (R1.3), coil j is bit j mod 8 of byte j div 8 for every j (R1.4), no narrow arithmetic "
         "wraps (R1.W). FC16/FC23 constructor limits of 124 are known findings."
         " R1.5: protocol id bytes are the constant 0 for any struct contents."
-        " R1.5 also: transaction id bytes are the struct's own for any contents."),
+        " R1.5 also: transaction id bytes are the struct's own for any contents."
+        " R1.6: no package-level state on the construction/encoding path (shared-state rule)."),
   note=ENGINE_NOTE + " The specification table in checker/spec.go is the oracle; the random transaction id is unconstrained.",
   ref="DESIGN.md §3 C01"),
  "C02": dict(
@@ -27,7 +28,8 @@ claimed = {
         "reproduces the frame segment by segment (R2.1); byte-counted responses are accepted only with consistent length (R2.2); "
         "exception frames are recognised exactly and carry unit/function/code (R2.3); dispatchers agree with parsers (R2.4)."
         " Also: installed recognisers (R2.3), recogniser sees everything received (R2.5), acceptance of every well-formed reply (R2.6)."
-        " Also R2.7 (dispatchers never return nil,nil) and the framing-mix rule on constructors."),
+        " Also R2.7 (dispatchers never return nil,nil) and the framing-mix rule on constructors."
+        " R2.6 also on the dispatchers (no well-formed size refused before the per-function parser); R2.8 shared-state rule for parsers, recognisers and re-encoding."),
   note=ENGINE_NOTE + " Premises are printed in evidence (protocol id 0, MBAP length = len-6, function byte = case constant, legal FC5 value, fixed-size replies have their length, FC17 within one ADU).",
   ref="DESIGN.md §3 C02"),
  "C03": dict(
@@ -37,7 +39,8 @@ claimed = {
         "nothing else (R3.2), and that CRC16 reads every input byte (R3.0, a necessary condition of clause 1). That CRC16's "
         "arithmetic equals the Modbus polynomial for every byte string is NOT decided (needs execution or a proof of the loop)."
         " Also: CRC range for arbitrary struct contents (R3.1), RTU clients install CRC-verifying functions (R3.3)."
-        " R3.4: checksum constants 0xFFFF / 0xA001 or an equal 256-entry table (constants only)."),
+        " R3.4: checksum constants 0xFFFF / 0xA001 or an equal 256-entry table (constants only)."
+        " R3.5: shared-state rule for CRC16 and its callers."),
   note=ENGINE_NOTE + " CRC16 is an uninterpreted function in R3.1/R3.2.",
   ref="DESIGN.md §3 C03"),
  "C04": dict(
@@ -59,7 +62,8 @@ claimed = {
         "The end-to-end equality with device memory for all field multisets is NOT decided (needs execution)."
         " Also R5.6 effect-free extraction, R5.7 constructors accept the full range 1..limit, R5.8 follow-up batches keep address and unit id, byte-order-aware accessors for multi-register types."
         " Also R5.9: Validate accepts every well-formed field."
-        " Also R5.10 (definitions stored as given) and R5.11 (= C04 window rules)."),
+        " Also R5.10 (definitions stored as given) and R5.11 (= C04 window rules)."
+        " R5.12: building requests is read-only on the builder (field list not written, no state kept)."),
   note=ENGINE_NOTE,
   ref="DESIGN.md §3 C05"),
  "C06": dict(
@@ -69,7 +73,8 @@ claimed = {
         "the right constructors, limits equal the specification, and slot end/span arithmetic cannot wrap. Optimality/tightness of "
         "the greedy batching for all field lists is NOT decided."
         " Also R6.4 (= R5.7) and R6.5 (the eight read-request encoders put unit/start/quantity on the wire as specified)."
-        " R6.6 (= R5.1): slot size equals the registers the type occupies."),
+        " R6.6 (= R5.1): slot size equals the registers the type occupies."
+        " R6.8 = R5.12; R6.9 the sort comparator is the ascending order of the slot address for all values."),
   note=ENGINE_NOTE,
   ref="DESIGN.md §3 C06"),
  "C07": dict(
@@ -79,7 +84,8 @@ claimed = {
         "only when complete (or EOF), tolerates exactly deadline/EOF errors, returns a copy of what was read (R7.2), and applies "
         "the exception recogniser to everything received in every iteration (R7.3). Scheduling and timing are not decided."
         " Also R7.4 installed recognisers claim only exception frames, R7.5 positive read timeout from the right configuration field, R7.6 parsers accept and decode every well-formed reply, R7.7 oversize limit = ADU size."
-        " R7.5 includes guard purity."),
+        " R7.5 includes guard purity."
+        " R7.6 includes dispatcher acceptance of every legal size."),
   note=ENGINE_NOTE + " io.Reader contract and errors.Is as an uninterpreted predicate are assumed.",
   ref="DESIGN.md §3 C07"),
  "C08": dict(
@@ -95,7 +101,8 @@ claimed = {
   text=("Decides for all legal requests: the library's own frames are accepted by the per-function parsers (RTU with and without "
         "CRC) with no feasible rejecting or panicking path, decode to equal fields (hence re-encode identically) (R9.3); parser "
         "limits equal the specification's (R9.1); dispatchers agree (R9.4). FC1/FC2 parser limit 125 is a known finding."
-        " R9.5 (= R1.5): header for any struct contents."),
+        " R9.5 (= R1.5): header for any struct contents."
+        " R9.6: shared-state rule for request parsing/encoding."),
   note=ENGINE_NOTE,
   ref="DESIGN.md §3 C09"),
  "C10": dict(
@@ -125,14 +132,16 @@ claimed = {
         "are outside the property."
         " R12.4: the recogniser sees received[0:total]."
         " Also R12.5 (parser gets do's result unchanged) and R12.6 (= R3.4)."
-        " R12.7: recogniser consulted on the whole frame also in Do."),
+        " R12.7: recogniser consulted on the whole frame also in Do."
+        " R12.8: shared-state rule for the clients' request path and CRC16."),
   note=ENGINE_NOTE,
   ref="DESIGN.md §3 C12"),
  "C13": dict(
   technique="interprocedural derived-pointer (taint) analysis over SSA with a read-only allow-list; hidden-state store rule",
   text=("Decides write-effect freedom of every function reachable from the accessors/extraction roots: no store, copy or append "
         "through payload-derived memory, no escape to non-allow-listed code (R13.1), no store to globals or through pointer "
-        "parameters/receivers (R13.2). Hence repeatability and order independence for all call sequences."),
+        "parameters/receivers (R13.2). Hence repeatability and order independence for all call sequences."
+        " R13.2 includes the shared-state scan (package-level buffers, pools, caches)."),
   note=ENGINE_NOTE + " Aliasing is tracked by derived-pointer propagation only (no pointer analysis is available at x/tools v0.29.0).",
   ref="DESIGN.md §3 C13"),
  "C14": dict(
@@ -142,7 +151,8 @@ claimed = {
         "with the whole exchange inside, Close tests the transport under the lock (R14.1-R14.4). Fairness and the transport's own "
         "thread safety are not decided."
         " Also R14.5 replies never alias a reused buffer, R14.6 no exit leaves the mutex held."
-        " R14.7: ClientError values are never modified after construction."),
+        " R14.7: ClientError values are never modified after construction."
+        " R14.8: no package-level state written from any exported client method."),
   note=ENGINE_NOTE,
   ref="DESIGN.md §3 C14"),
  "C15": dict(
@@ -153,7 +163,8 @@ claimed = {
         "reply before the next read. Exactly-once/in-order over all segmentations as a whole is NOT decided."
         " Also R15.5 one freshly allocated assembler per accepted connection, R15.6 classifier verdict depends on the header bytes only, accumulator returned on every loop exit."
         " Also: no read bytes dropped (R15.4), parsed requests do not alias the input (R15.7)."
-        " R15.3 also forbids a return before the step and value receivers."),
+        " R15.3 also forbids a return before the step and value receivers."
+        " R15.2 also: the connection is given up only on the classifier's verdict."),
   note=ENGINE_NOTE + " bytes.Buffer contract is modelled, not analysed.",
   ref="DESIGN.md §3 C15"),
  "C16": dict(
@@ -175,7 +186,8 @@ claimed = {
         "bounded time are NOT decided (schedule exploration)."
         " Also R17.7 nil listener, R17.8 Shutdown scan flag is monotone and never up for an in-flight connection, R17.9 no exit leaves Server.mu held, R17.10 all replies of a read are handed back and written."
         " R17.11 (= R16.6)."
-        " R17.12: reply write deadline from a fresh clock reading."),
+        " R17.12: reply write deadline from a fresh clock reading."
+        " R17.13: every way into the accept loop has stored the accepted-on listener in the Server before Accept."),
   note=ENGINE_NOTE,
   ref="DESIGN.md §3 C17"),
  "C18": dict(
